@@ -31,7 +31,7 @@ def drive(run, prop, kind, func_name, configs, canaries, canary_cfg, checker_cls
                        '_correct_increments': F._correct_increments}
     run.encode(getattr(F, func_name), F._correct_increments, *extra_encode)
     run.assume(
-        'time stamps, time_step are exact reals (binary64 rounding of time+time_step only in the "rounded" configurations)',
+        'time stamps and time_step are exact reals; the ONE arithmetic result that steers the loops, time + time_step, is additionally abstracted in dedicated configurations to an arbitrary value not below either operand (all that is assumed of the binary64 sum): every obligation except the step bound is re-established there, so no rounding of that addition can break them',
         'strapdown.Integrator replaced by its contract model (conformance decided by C02/C13)',
         'measurement classes replaced by the contract "(z,H,R) iff time is a stamp of the data, else None" (decided for the real classes by C06)',
         'kalman.correct, _compute_error_propagation_matrices, _interpolate_pva, _initialize_covariance, _compute_sd / _compute_feedforward_result, EstimationModel are recording tokens: numeric content (finiteness of P, sd) is outside',
